@@ -134,9 +134,20 @@ def run_reuse(item):
                                                    circles=end[0]['circles'], converged=end[0]['converged'], degenerate=end[0]['degenerate']),
                                            ev=[dict(i=e['i'], converged=e['converged'], degenerate=e['degenerate'], needs_smaller=e['needs_smaller'],
                                                     dirchg=e['dirchg'], numchg=e['numchg']) for e in it]) if len(end) == 1 else None))
+            # the function-level interface with the SAME function object and other iteration caps, in both orders: a cap given
+            # is the cap used (failed <=> the cap was reached), and a call never inherits another call's options
+            fun_hist = []
+            z0 = pts[0]
+            for caps in (dict(max_iter=6), {}, dict(max_iter=6), dict(max_iter=9, min_iter=8), {}):
+                del _verif.EVENTS[:]
+                ca, ia = fb.taylor(f, z0, n=n, full_output=True, **dict(kw, **caps))
+                end = [e for e in _verif.EVENTS if e['ev'] == 'tay_end']
+                cb, ib = fb.Taylor(f, n=n, full_output=True, **dict(kw, **caps))(z0)
+                fun_hist.append(dict(caps=caps, iterations=int(end[0]['circles']) if len(end) == 1 else int(ia.iterations) + 1, failed=bool(ia.failed), used_max_iter=end[0]['max_iter'] if len(end) == 1 else None,
+                                     same=bool(np.asarray(ca).tobytes() == np.asarray(cb).tobytes() and (bool(ia.degenerate), bool(ia.failed), int(ia.iterations)) == (bool(ib.degenerate), bool(ib.failed), int(ib.iterations)))))
     except Exception as ex:
         return dict(error='%s: %s' % (type(ex).__name__, str(ex)[:160]))
-    return dict(calls=out)
+    return dict(calls=out, fun_hist=fun_hist)
 
 
 def validate(traces):
@@ -299,6 +310,13 @@ def run(tier, rep):
             if c['trace']:
                 traces.append(c['trace'])
                 owners.append('%s, call %d' % (nm, j + 1))
+        for j, h_ in enumerate(o.get('fun_hist', [])):
+            cap = h_['caps'].get('max_iter', 30)
+            if not (h_['same'] and h_['iterations'] <= cap and h_['used_max_iter'] in (None, cap) and (not h_['failed'] or h_['iterations'] == cap)):
+                rep.violation('reuse:function', dict(case=nm, call=j + 1, **h_),
+                              '%s: taylor(f, z0, n, %s) as call %d of a sequence on the same function object: %d circles, failed=%s, cap used %s; a new Taylor object with these options behaves differently or the cap %d was not respected' % (
+                                  nm, h_['caps'] or 'default caps', j + 1, h_['iterations'], h_['failed'], h_['used_max_iter'], cap))
+                break
     tres, accepted = validate(traces)
     for j, nm in enumerate(owners, 1):
         if j not in accepted:
